@@ -226,7 +226,7 @@ Qed.
 Lemma cancel_slot_fields : forall w s m,
   w_clock (cancel_slot w s m) = w_clock w /\ w_st (cancel_slot w s m) = w_st w /\
   w_runner (cancel_slot w s m) = w_runner w /\ length (w_timers (cancel_slot w s m)) = length (w_timers w) /\
-  w_tout (cancel_slot w s m) = w_tout w.
+  w_tout (cancel_slot w s m) = w_tout w /\ w_ot (cancel_slot w s m) = w_ot w.
 Proof.
   intros w s m. unfold cancel_slot. destruct (w_runner w s m); simpl; repeat split; auto using length_upd_nth.
 Qed.
@@ -246,7 +246,7 @@ Section Change.
     intros b w k m d mk w' (Hok & Hlast & I & Hopen & Htout) E.
     set (s := w_st w m) in *.
     set (w1 := cancel_slot w s m) in *.
-    destruct (cancel_slot_fields w s m) as (C1 & S1 & Rn1 & L1 & T1). fold w1 in C1, S1, Rn1, L1, T1.
+    destruct (cancel_slot_fields w s m) as (C1 & S1 & Rn1 & L1 & T1 & O1). fold w1 in C1, S1, Rn1, L1, T1, O1.
     assert (I1 : Inv b w1).
     { unfold w1, cancel_slot. destruct (w_runner w s m) as [i|]; [apply upd_inv; auto using kf_cancel, nr_cancel|exact I]. }
     assert (P1 : forall j tm, pend w1 j tm -> pend w j tm).
@@ -262,14 +262,14 @@ Section Change.
       apply upd_armed_other. intros Hr'. destruct (slot_model _ _ _ _ _ _ _ I Hr Hr'). congruence. }
     assert (Ta : match armed w m with Some dl => w_clock w <= dl | None => True end).
     { destruct (armed w m) as [dl|] eqn:Ha; [|exact Logic.I]. eapply armed_time; eauto. }
-    unfold set_and_start in E. rewrite C1, S1, Rn1, T1 in E. fold s in E.
+    unfold set_and_start in E. rewrite C1, S1, Rn1, T1, O1 in E. fold s in E.
     pose proof (ck_change c nm k m s d (w_clock w) (armed w m) Hok Hlast (Hopen m) Ta) as (K1 & K2 & K3 & K4).
     destruct (Nat.ltb 0 (w_tout w d)) eqn:Ht.
     - (* a timer is started *)
       inversion E; subst mk w'; clear E.
       set (l1 := w_timers w1) in *.
       set (new := mkTimer d m (w_clock w + w_tout w d) Pending).
-      set (W := mkW (w_clock w) (upd (w_st w) m d) (l1 ++ [new]) (upd2 (w_runner w) d m (Some (length l1))) (w_tout w)).
+      set (W := mkW (w_clock w) (upd (w_st w) m d) (l1 ++ [new]) (upd2 (w_runner w) d m (Some (length l1))) (w_tout w) (w_ot w)).
       apply Nat.ltb_lt in Ht.
       assert (Pn : forall j tm, pend W j tm -> (j < length l1 /\ pend w1 j tm) \/ (j = length l1 /\ tm = new)).
       { intros j tm [Hn Hp]. simpl in Hn. destruct (Nat.lt_ge_cases j (length l1)) as [Hlt|Hge].
@@ -316,7 +316,7 @@ Section Change.
       + intros j tm P Hm. destruct (Pn _ _ P) as [[_ P']|[-> _]]; [|exact L1]. exfalso. exact (E1 _ _ P' Hm).
     - (* no timeout *)
       inversion E; subst mk w'; clear E.
-      set (W := mkW (w_clock w) (upd (w_st w) m d) (w_timers w1) (w_runner w) (w_tout w)).
+      set (W := mkW (w_clock w) (upd (w_st w) m d) (w_timers w1) (w_runner w) (w_tout w) (w_ot w)).
       assert (Pn : forall j tm, pend W j tm -> pend w1 j tm) by (intros j tm P; exact P).
       assert (Inew : Inv b W).
       { constructor; simpl.
@@ -686,7 +686,7 @@ Section Run.
   Proof.
     intros w k i tm its w' HR Hn Hd E. unfold fire in E.
     set (w1 := set_timers w (upd_nth (w_timers w) i start_running)) in *.
-    destruct (handler c w1 (tm_model tm) (ts_on_timeout (sdef c (tm_state tm)))) as [its0 w2] eqn:Eh.
+    destruct (handler c w1 (tm_model tm) (w_ot w (tm_state tm))) as [its0 w2] eqn:Eh.
     inversion E; subst its w'; clear E.
     destruct HR as (Hok & Hlast & I & Hopen & Htout).
     unfold due in Hd. apply andb_true_iff in Hd as [Hp Hdl]. apply Nat.eqb_eq in Hdl.
@@ -763,7 +763,7 @@ Section Run.
     R true w k -> tick c w = (its, w') -> R true w' (ckr k its) /\ w_clock w' = S (w_clock w).
   Proof.
     intros w k its w' (A & B & I & D) E. unfold tick in E.
-    set (w1 := mkW (S (w_clock w)) (w_st w) (w_timers w) (w_runner w) (w_tout w)) in *.
+    set (w1 := mkW (S (w_clock w)) (w_st w) (w_timers w) (w_runner w) (w_tout w) (w_ot w)) in *.
     assert (R1 : R false w1 k).
     { split; [exact A|split; [simpl; lia|split; [|exact D]]].
       destruct I as [I1 I2 I3]. constructor.
@@ -789,7 +789,7 @@ Section Run.
   Lemma do_op_R : forall w k o,
     R true w k -> R true (snd (do_op c w o)) (ckr k (fst (fst (do_op c w o)))).
   Proof.
-    intros w k o HR. destruct o as [m e|dt|s v]; simpl.
+    intros w k o HR. destruct o as [m e|dt|s v|s l]; simpl.
     - destruct (top_trig c w m e) as [[its w'] r] eqn:Es. simpl.
       assert (R0 : R true w (ck_step c nm k (TUser m e (w_clock w)))).
       { pose proof (none_overdue_R nm _ _ HR) as N. destruct HR as (A & B & I & D).
@@ -804,6 +804,8 @@ Section Run.
       + destruct I as [I1 I2 I3]. constructor; assumption.
       + intros m. simpl. exact (D m).
       + intros s'. simpl. unfold upd. destruct (Nat.eqb s' s); [reflexivity|apply T].
+    - destruct HR as (A & B & I & D & T). split; [exact A|split; [exact B|split; [|split; [exact D|exact T]]]].
+      destruct I as [I1 I2 I3]. constructor; assumption.
   Qed.
 
   Lemma run_R : forall h w k, R true w k -> R true (run_world c w h) (ckr k (run_trace c w h)).
@@ -1004,12 +1006,12 @@ Proof.
 Qed.
 
 Lemma async_fire_items : forall b c w i tm,
-  tc_async c = true -> Inv b w -> pend w i tm -> ids_positive c (tm_state tm) = true ->
-  filter handler_kind (fst (fire c w i tm)) = async_firing c (tm_model tm) (tm_state tm) (w_clock w).
+  tc_async c = true -> Inv b w -> pend w i tm -> ids_positive (w_ot w) (tm_state tm) = true ->
+  filter handler_kind (fst (fire c w i tm)) = async_firing c (w_ot w) (tm_model tm) (tm_state tm) (w_clock w).
 Proof.
   intros b c w i tm Ha I P Hpos. unfold fire, handler, handler_async. rewrite Ha.
   set (w1 := set_timers w (upd_nth (w_timers w) i start_running)).
-  set (cbs := ts_on_timeout (sdef c (tm_state tm))) in *.
+  set (cbs := w_ot w (tm_state tm)) in *.
   pose proof (acts_async_hk c (tm_model tm) cbs w1) as Q1. apply filter_none in Q1.
   destruct (acts_async c w1 (tm_model tm) cbs) as [ia w2]. simpl in *.
   destruct (inv_pend _ _ I _ _ P) as [Hs _]. rewrite Hs.
@@ -1033,9 +1035,9 @@ Proof.
 Qed.
 
 Lemma async_shield : forall b c w i tm,
-  tc_async c = true -> Inv b w -> pend w i tm -> ids_positive c (tm_state tm) = true ->
+  tc_async c = true -> Inv b w -> pend w i tm -> ids_positive (w_ot w) (tm_state tm) = true ->
   filter is_ctimeout (fst (fire c w i tm)) =
-    map (fun cb => CTimeout (oc_id cb) (tm_model tm) (tm_state tm) (w_clock w)) (ts_on_timeout (sdef c (tm_state tm))).
+    map (fun cb => CTimeout (oc_id cb) (tm_model tm) (tm_state tm) (w_clock w)) (w_ot w (tm_state tm)).
 Proof.
   intros b c w i tm Ha I P Hpos. pose proof (async_fire_items b c w i tm Ha I P Hpos) as A.
   rewrite (filter_sub is_ctimeout handler_kind) by (intros [] H; simpl in *; congruence || reflexivity).
@@ -1045,9 +1047,9 @@ Proof.
 Qed.
 
 Lemma async_exception : forall b c w i tm,
-  tc_async c = true -> Inv b w -> pend w i tm -> ids_positive c (tm_state tm) = true ->
+  tc_async c = true -> Inv b w -> pend w i tm -> ids_positive (w_ot w) (tm_state tm) = true ->
   filter is_user_onexc (fst (fire c w i tm)) =
-    match first_raising (ts_on_timeout (sdef c (tm_state tm))) with
+    match first_raising (w_ot w (tm_state tm)) with
     | Some k => map (fun h => COnExc h (tm_model tm) k (w_clock w)) (tc_onexc c)
     | None => []
     end.
